@@ -26,7 +26,7 @@ RULE = ('seeded plans: RDM stack (1-6 RDMs, 3-9 conditions, identity-encoded val
 ASSUMPTIONS = ['numpy global RNG is the only entropy source of rsatoolbox.inference.bootstrap (seam); '
                'the RNG itself is a stub, so bias of the generator is out of scope',
                'reference model sim/twins/rdms_ref.py is correct']
-BUDGET = {'quick': {'runs': 2500, 'cap_s': 20, 'wall_s': 100, 'chunk': 40},
+BUDGET = {'quick': {'runs': 8000, 'cap_s': 20, 'wall_s': 100, 'chunk': 40},
           'thorough': {'runs': 120000, 'cap_s': 60, 'wall_s': 900, 'chunk': 200}}
 
 OPS = ['bootstrap_sample', 'bootstrap_sample_rdm', 'bootstrap_sample_pattern', 'subsample', 'subsample_pattern']
